@@ -11,6 +11,7 @@
 //	runtime.NumCPU()                -> vsched.NumCPU()
 //	os.Open / os.ReadFile / io.Copy / io.ReadAll -> vsched wrappers (yield + fault injection point)
 //	syscall.Mmap / unix.Mmap         -> vsched.Mmap (fault: the file shrinks under the mapping)
+//	time.NewTimer / time.After / time.Timer -> vsched twins (a timer may fire at any scheduling point)
 //
 // It reads the non-test files of the named packages from the repository's working
 // tree, writes the rewritten copies to -out and prints `"orig": "copy",` overlay
@@ -223,6 +224,13 @@ func (r *rewriter) rewriteFile() {
 			case r.pkgSel(n.Fun, "io", "ReadAll"):
 				n.Fun = vs("ReadAll")
 				r.count++
+			case r.pkgSel(n.Fun, "time", "NewTimer"):
+				// a timer is an environment that may fire at any scheduling point
+				n.Fun = vs("NewTimer")
+				r.count++
+			case r.pkgSel(n.Fun, "time", "After"):
+				n.Fun = vs("After")
+				r.count++
 			case r.pkgSel(n.Fun, "syscall", "Mmap"), r.pkgSel(n.Fun, "unix", "Mmap"):
 				// a mapped file can be truncated by someone else: an environment answer like a failing read
 				n.Fun = vs("Mmap")
@@ -234,6 +242,10 @@ func (r *rewriter) rewriteFile() {
 					c.Replace(vs(t))
 					r.count++
 				}
+			}
+			if r.pkgSel(n, "time", "Timer") {
+				c.Replace(vs("Timer"))
+				r.count++
 			}
 			// sync/atomic: every type and function becomes its scheduling-point twin (an unknown
 			// name fails to compile against vsched, loudly)
@@ -252,7 +264,7 @@ func (r *rewriter) rewriteFile() {
 	}
 	astutil.AddImport(r.fset, r.file, vschedPath)
 	// drop imports that are no longer referenced
-	for _, p := range []string{"sync", "runtime", "os", "io"} {
+	for _, p := range []string{"sync", "runtime", "os", "io", "time"} {
 		if !usesPkgIdent(r.file, p) {
 			astutil.DeleteImport(r.fset, r.file, p)
 		}
